@@ -107,7 +107,7 @@ impl<D: Dec> Twin<D> {
     pub fn new(li: usize, mode: HandleControl) -> Twin<D> {
         Twin {
             kb: Keyboard::new(D::fresh(), mk_layout(li), mode),
-            ps2: Ps2Decoder::new(),
+            ps2: crate::scan::fresh_ps2(),
             sc: D::fresh(),
             evd: EventDecoder::new(mk_layout(li), mode),
         }
@@ -447,6 +447,19 @@ pub fn run<D: Dec>(rep: &mut Report) {
                 }
             }
         }
+        // -- add_word takes a u16: all 65 536 values (the five bits above the frame included), contexts strided
+        for w in 0..=u16::MAX {
+            if w < 2048 || !mine(&mut case_no) {
+                continue;
+            }
+            let sp = &scp[w as usize % scp.len()];
+            let (n, v) = partial[(w as usize * 13) % partial.len()];
+            let mut setup: Vec<KOp> = sp.clone();
+            setup.extend(bits_of_prefix(n, v));
+            // the word, then a plain key over the same entry point: a stranded prefix shows in the second
+            run_case::<D>(w as usize % 10, &setup, &[KOp::Word(w), KOp::Word(encode_frame(0x1C) | (w & 0xF800))], &mut out);
+            out.distinct.insert((5, w as u64));
+        }
         // -- add_word with framing parked in *every* partial state (sampled words of each class)
         for (pi, (n, v)) in partial.iter().enumerate() {
             for (wi, w) in [encode_frame(0x1C), encode_frame(0xE0), 0x7FFu16, 0x000, encode_frame(0xF0) ^ 0x200, encode_frame(0x12) ^ 0x400].iter().enumerate() {
@@ -567,6 +580,8 @@ pub fn hostile_ops(rng: &mut Rng, typist: &Typist, len: usize) -> Vec<KOp> {
                 match rng.below(8) {
                     0 => w ^= 1 << rng.below(11),
                     1 => w = rng.below(2048) as u16,
+                    2 => w |= (rng.below(32) as u16) << 11,
+                    3 => w = rng.below(65_536) as u16,
                     _ => {}
                 }
                 ops.push(KOp::Word(w));
